@@ -137,6 +137,9 @@ def run_ledger_cases(cases, oracle, *, record=False, fx=None, sample_fn=None, ma
         reqs.append(c)
     obs = probe().run(reqs)
     for (txs, feats), o in zip(cases, obs):
+        if "hang" in o:
+            cnt["call_without_answer(routed to C15)"] += 1
+            continue
         vs = oracle(txs, o, cnt, sets, feats)
         for f in feats:
             cnt["feat_" + f] += 1
